@@ -907,13 +907,15 @@ class Verifier:
         except ValueError:
             return None
         # Loop specifications are written against loop ordinals of the pinned source; loop_anchors.json records the
-        # header text of every such loop.  When the function's loop headers differ from the recorded ones (a loop was
-        # added, removed or reordered), a loop is re-attached to the ordinal that carried the same header text
+        # header text of every such loop.  When the *number* of loops differs from the recorded one (a loop was
+        # added or removed), a loop is re-attached to the ordinal that carried the same header text
         # (k-th occurrence to k-th occurrence); a loop whose header is new has no specification.
         base = loop_anchors().get(key)
         if base is not None:
             cur = [frontend.loop_header(l) for l in loops]
-            if cur != base:
+            if cur != base and len(cur) != len(base):
+                # (same number of loops: a header changed textually -- renamed local, extracted sub-expression -- and the
+                # ordinals still line up; only when loops were added or removed is the header text used to re-attach)
                 h = cur[o]
                 bi = [i for i, x in enumerate(base) if x == h]
                 ci = [i for i, x in enumerate(cur) if x == h]
@@ -935,6 +937,10 @@ class Verifier:
 
     def bound_reached(self, s):
         self.bounds_hit.add(getattr(s, "lineno", 0))
+        if self.cur is not None and self.cur.mode != "bounded":
+            # prove mode: the contract is undecided from here on (unroll-bound guard); do not burn time on the remaining paths
+            self.worklist[:] = []
+            self.aborted = True
 
     def cover(self, s):
         self.covered.add(getattr(s, "lineno", 0))
@@ -959,6 +965,41 @@ class Verifier:
     def concretize_inputs(self, model):
         from .concretize import concretize_env
         return concretize_env(self, self.cur_inputs, model)
+
+    def lost_cut_points(self, c, node):
+        """keys of c.asserts ("var", "var@k", "call:x.m", "yield:expr") without an anchor in the function's AST"""
+        keys = set(getattr(c, "asserts", None) or {})
+        if not keys:
+            return set()
+        from .modset import _target_names
+        assigned, calls, yields = set(), set(), set()
+        for n in ast.walk(node):
+            if isinstance(n, (ast.Assign, ast.AugAssign, ast.AnnAssign, ast.For, ast.With, ast.NamedExpr)):
+                tg = getattr(n, "targets", None) or [getattr(n, "target", None)]
+                if isinstance(n, ast.With):
+                    tg = [it.optional_vars for it in n.items if it.optional_vars is not None]
+                for t in tg:
+                    if t is not None:
+                        try:
+                            _target_names(t, assigned)
+                        except Exception:
+                            pass
+            if isinstance(n, ast.Expr) and isinstance(n.value, ast.Call):
+                calls.add("call:" + ast.unparse(n.value.func))
+            if isinstance(n, ast.Yield):
+                yields.add("yield:" + (ast.unparse(n.value) if n.value is not None else ""))
+        lost = set()
+        for k in keys:
+            if k.startswith("call:"):
+                if k not in calls:
+                    lost.add(k)
+            elif k.startswith("yield:"):
+                if k not in yields:
+                    lost.add(k)
+            else:
+                if k.split("@")[0] not in assigned:
+                    lost.add(k)
+        return lost
 
     def verify(self, c):
         """verify one contract; returns a result dict"""
@@ -994,6 +1035,14 @@ class Verifier:
             self.feas_rlimit = int(c.feas_timeout_ms * float(os.environ.get("PYVC_FEAS_RLIMIT_PER_MS", "1500")))
         mod, cls, node = frontend.find_function(c.key, self.repo)
         limit = c.max_paths or self.max_paths
+        lost = self.lost_cut_points(c, node)
+        if lost:
+            # a cut point whose anchor (assigned local / call / yield) no longer exists in the function would silently not
+            # fire: the facts it transfers would be missing and later obligations would fail for no semantic reason.
+            # Undecided, not a violation.
+            self.errors.append("anchor lost: cut point(s) %s of %s have no matching statement in the current source "
+                               "(renamed local or rewritten call?): contract not evaluated" % (sorted(lost), c.key))
+            self.worklist = []
         try:
             while self.worklist:
                 prefix = self.worklist.pop()
